@@ -76,7 +76,7 @@ func c05Check(c scriptCase) []rep.Finding { return lockstep(c, nil).fs }
 
 func init() {
 	p := register(&Prop{ID: "C05", Level: "model_checking",
-		Rule: "explicit-state exploration of the real interpreter in lockstep with a reference model of the BSV script rules (certified on all 1438 node vectors of script_tests.json, verdict and error name): after every instruction the AfterStep snapshot (data and alt stack) must equal the reference's, and the final verdict must agree. Spaces: (1) operand grid: every opcode byte 0x00..0xff x every tuple of edge operands (arity 1 and 2 over the full edge set, arity 3 over a 12-value subset; shift counts 0..8n+1 for operand lengths 0..3) x both eras x covering flag sets, and all 512 subsets of the nine non-signature flags for the flag-sensitive opcodes, CLTV/CSV against 7x3 transaction contexts; (2) every byte string of length<=2 (quick) / <=3 (thorough) as locking script x 4 seed unlocking scripts x 2 eras (+MINIMALDATA); (3) breadth-first program exploration with canonical-state deduplication over a 15-symbol control-flow alphabet (incl. a non-minimal push) (depth 7/8) and a 51-symbol mixed alphabet (stack, alt, splice, bitwise, shift, arithmetic, hash opcodes, 8 pushes) (depth 3/4) from empty and seeded stacks; (3b) the same search on the unlocking side (control-flow alphabet + alt-stack, DUP, CODESEPARATOR; depth 4/5) against 7 fixed locking scripts, deciding what may cross the script boundary; (4) P2SH / limit templates; (5) option forms: ~3,800 cases (every opcode, P2SH spends, OP_RETURN/ELSE/big-number programs x 7 flag words) each requested through 6 equivalent option lists and on an Engine value that executed other programs (other era, P2SH, early return, unbalanced conditional) before (WithAfterGenesis/WithForkID/WithP2SH before or after WithFlags(rest), the flag word split over two WithFlags calls, overlapping, followed by WithFlags(0), WithFlags before WithTx): verdict equals the reference's for the flag word. Scripts whose execution reaches a signature opcode are left to C06. states = distinct canonical machine states (stacks, condition stack, era+flags) seen in snapshots; transitions = instructions executed in lockstep; traces = executions compared",
+		Rule: "explicit-state exploration of the real interpreter in lockstep with a reference model of the BSV script rules (certified on all 1438 node vectors of script_tests.json, verdict and error name): after every instruction the AfterStep snapshot (data and alt stack) must equal the reference's, and the final verdict must agree. Spaces: (1) operand grid: every opcode byte 0x00..0xff x every tuple of edge operands (arity 1 and 2 over the full edge set, arity 3 over a 12-value subset; shift counts 0..8n+1 for operand lengths 0..3) x both eras x covering flag sets, and all 512 subsets of the nine non-signature flags for the flag-sensitive opcodes, CLTV/CSV against 7x3 transaction contexts; (2) every byte string of length<=2 (quick) / <=3 (thorough) as locking script x 4 seed unlocking scripts x 2 eras (+MINIMALDATA); (3) breadth-first program exploration with canonical-state deduplication over a 15-symbol control-flow alphabet (incl. a non-minimal push) (depth 7/8) and a 51-symbol mixed alphabet (stack, alt, splice, bitwise, shift, arithmetic, hash opcodes, 8 pushes) (depth 3/4) from empty and seeded stacks; (3b) the same search on the unlocking side (control-flow alphabet + alt-stack, DUP, CODESEPARATOR; depth 4/5) against 7 fixed locking scripts, deciding what may cross the script boundary; (4) P2SH / limit templates, and P2SH spends of EVERY redeem script of up to two bytes (x clean-stack on/off x with/without an extra item underneath); (5) option forms: ~3,800 cases (every opcode, P2SH spends, OP_RETURN/ELSE/big-number programs x 7 flag words) each requested through 6 equivalent option lists and on an Engine value that executed other programs (other era, P2SH, early return, unbalanced conditional) before (WithAfterGenesis/WithForkID/WithP2SH before or after WithFlags(rest), the flag word split over two WithFlags calls, overlapping, followed by WithFlags(0), WithFlags before WithTx): verdict equals the reference's for the flag word. Scripts whose execution reaches a signature opcode are left to C06. states = distinct canonical machine states (stacks, condition stack, era+flags) seen in snapshots; transitions = instructions executed in lockstep; traces = executions compared",
 	})
 	NewSpace(p, "grid", c05Check)
 	NewSpace(p, "bytes", c05Check)
@@ -116,6 +116,7 @@ func init() {
 		c05BFS(r, p, chk, thorough)
 		c05UnlockBFS(r, p, chk, thorough)
 		c05Templates(r, p, chk, thorough)
+		c05P2SHAll(r, p, chk)
 		c05Options(r, spOpt, thorough)
 		r.Note("states", r.DistinctCount())
 		r.Note("transitions", st.transitions)
@@ -436,6 +437,26 @@ func c05Templates(r *rep.Run, p *Prop, chk func(scriptCase) []rep.Finding, thoro
 // c05UnlockBFS explores programs on the UNLOCKING side against a few fixed locking
 // scripts: what must not cross the script boundary (alt stack, open conditionals, an
 // early return) is decided here.
+func c05P2SHAll(r *rep.Run, p *Prop, chk func(scriptCase) []rep.Finding) {
+	// P2SH spends of EVERY redeem script of up to two bytes
+	(&Space[scriptCase]{P: p, Name: "templates", Check: chk}).Indexed(r, (1+256+65536)*4, func(i uint64) scriptCase {
+		f := []uint32{fP2SH, fP2SH | fClean}[i%2]
+		pre := [][]byte{nil, {0x51}}[i/2%2]
+		i /= 4
+		var rd []byte
+		switch {
+		case i == 0:
+			rd = []byte{}
+		case i <= 256:
+			rd = []byte{byte(i - 1)}
+		default:
+			rd = []byte{byte((i - 257) >> 8), byte(i - 257)}
+		}
+		lock := append(append([]byte{0xa9, 0x14}, refHash160(rd)...), 0x87)
+		return scriptCase{Unlock: append(append([]byte(nil), pre...), minimalPush(rd)...), Lock: lock, Flags: f}
+	})
+}
+
 func c05UnlockBFS(r *rep.Run, p *Prop, chk func(scriptCase) []rep.Finding, thorough bool) {
 	syms := append(ctlAlphabet(), []byte{0x6b}, []byte{0x6c}, []byte{0x76}, []byte{0xab})
 	locks := [][]byte{{0x51}, {0x6c}, {0x68, 0x51}, {0x75, 0x51}, {0x67, 0x51, 0x68}, {}, {0x6a}}
